@@ -25,7 +25,8 @@ func init() {
 		Rule{ID: "R07e", Doc: "netlist.List built only by Build; Lookup index guarded", Floor: 3, Run: r07e},
 		Rule{ID: "R20b", Doc: "the question used for the key is not recycled under the refresh goroutine (shared with C20)", Floor: 20, Run: r20b},
 		Rule{ID: "R07f", Doc: "the client-group lookup is a correct predecessor search", Floor: 4, AllVariants: true, Run: r07f},
-		Rule{ID: "R12f", Doc: "the client-group mark is computed from the peer address (shared with C12)", Floor: 6, Run: r12f},
+		Rule{ID: "R12f", Doc: "the client-group mark is computed from the peer address (shared with C12)", Floor: 4, Run: r12f},
+		Rule{ID: "R20a", Doc: "a key buffer is released once (a doubly pooled key lets two requests share one key; shared with C20)", Floor: 60, Run: r20a},
 	)
 }
 
